@@ -3,7 +3,10 @@
    Spec/Sem.select is the documented selection rule; the BIND instruction computes it over the completed
    toplevel blocks of the named type, in definition order; a warning is logged iff a binding already
    exists.  That `:all -> struct` and unknown selectors/targets are compile errors is part of the grammar
-   (Spec/Syntax.pbind) and of T2 (tested by t2check). *)
+   (Spec/Syntax.pbind has no production for them) and of T2 (proved: C04_static, accepted iff a sentence);
+   C04_language: for every accepted source text the binding and the warnings of the run are those of the
+   big-step semantics, whose SBind case is Sem.select over the completed toplevel blocks of that type. *)
+From BCL Require Import Model.Api Model.Compile Spec.Syntax Spec.AstSem Proofs.ParserInvProofs Proofs.T2Expr Proofs.T2Proofs Proofs.T1Expr Proofs.T1Proofs Proofs.Language.
 From RecordUpdate Require Import RecordSet.
 Import RecordSetNotations.
 From BCL Require Import Model.Vm Spec.Sem Proofs.VmSpecProofs.
@@ -60,6 +63,26 @@ Print Assumptions C04_warning_iff_rebind.
 Theorem C04_select_invalid_iff : forall s t l, Sem.select s t l = SInvalid <-> (l <> [] /\ s = SelAll /\ t = TStructTgt).
 Proof. first [exact VmSpecProofs.select_invalid_iff | apply VmSpecProofs.select_invalid_iff]. Qed.
 Print Assumptions C04_select_invalid_iff.
+
+Theorem C04_language : forall name src,
+  let pr := parse_whole name src in
+  let ts := fst (lex [src]) in
+  pr_ok pr = true -> pr_oof pr = false -> pr_panic pr = false ->
+  ps_constants (pr_stats pr) < 2^64 ->
+  exists p, ast_program ts = Some p /\
+    let rr := execute (pr_prog pr) false false in
+    limit_res (rr_res rr) \/
+    (res_match (fst (run_program p)) (rr_res rr) /\ obs_match (snd (run_program p)) rr).
+Proof. first [exact Language.bcl_language | apply Language.bcl_language]. Qed.
+Print Assumptions C04_language.
+
+Theorem C04_static : forall name src,
+  let pr := parse_whole name src in
+  let ts := fst (lex [src]) in
+  (pr_ok pr = true /\ pr_oof pr = false /\ pr_panic pr = false) <->
+  (exists p, ast_program ts = Some p /\ hadError (compile_program p) = false).
+Proof. first [exact Language.bcl_accepts_iff | apply Language.bcl_accepts_iff]. Qed.
+Print Assumptions C04_static.
 
 From BCL Require Import Model.Api.
 Example C04_example :
